@@ -39,9 +39,10 @@ class Obligation:
     time_s: float = 0.0
     detail: str = ""
     timeout_s: float = 0.0
+    pruned_smt2: str = ""         # optional easier variant (fewer hypotheses): `unsat` on it discharges; anything else falls back
 
 
-def make(oid, kind, func, where, pc, goal, expect="valid", **kw) -> Obligation:
+def make(oid, kind, func, where, pc, goal, expect="valid", pruned_pc=None, **kw) -> Obligation:
     """Build an obligation from z3 terms.  A goal the simplifier reduces to `true` is recorded as
     discharged by back end 'z3-simplify' (no query)."""
     g = z3.simplify(goal)
@@ -52,8 +53,16 @@ def make(oid, kind, func, where, pc, goal, expect="valid", **kw) -> Obligation:
     s = z3.Solver()
     for c in pc:
         s.add(c)
-    s.add(z3.Not(g) if expect == "valid" else g)
-    return Obligation(oid=oid, kind=kind, func=func, where=where, smt2=s.to_smt2(), expect=expect, **kw)
+    # the ORIGINAL goal goes to the solvers (the simplifier's arithmetic normal forms make quantified bit-vector goals harder)
+    s.add(z3.Not(goal) if expect == "valid" else goal)
+    o = Obligation(oid=oid, kind=kind, func=func, where=where, smt2=s.to_smt2(), expect=expect, **kw)
+    if pruned_pc is not None and expect == "valid":
+        s2 = z3.Solver()
+        for c in pruned_pc:
+            s2.add(c)
+        s2.add(z3.Not(goal))
+        o.pruned_smt2 = s2.to_smt2()
+    return o
 
 
 def _run_z3(smt2: str, timeout_s: float):
@@ -95,18 +104,68 @@ def _run_cvc5(smt2: str, timeout_s: float):
     return rs, time.time() - t0, why
 
 
+def _run_z3_old(smt2: str, timeout_s: float):
+    """/usr/bin/z3 4.8.12 (Debian): markedly faster than 5.1 on the bit-vector obligations of the C contracts"""
+    with tempfile.NamedTemporaryFile("w", suffix=".smt2", delete=False) as f:
+        f.write(smt2)
+        path = f.name
+    t0 = time.time()
+    try:
+        p = subprocess.run(["/usr/bin/z3", "-T:%d" % max(1, int(timeout_s)), path], capture_output=True, text=True,
+                           timeout=timeout_s + 10)
+        out = (p.stdout or "").strip().splitlines()
+        rs = out[0].strip() if out else "unknown"
+        if rs not in ("sat", "unsat"):
+            rs = "unknown"
+        why = "" if rs != "unknown" else (out[0] if out else "")[:100]
+    except Exception as e:
+        rs, why = "unknown", "z3-4.8: %r" % (e,)
+    finally:
+        os.unlink(path)
+    return rs, time.time() - t0, why
+
+
 def _solve_job(job):
     idx, smt2, timeout_s, use_cvc5 = job
+    if isinstance(smt2, tuple):
+        # (pruned, full): the pruned variant has a subset of the hypotheses, so `unsat` there is a proof; otherwise decide the full one
+        pruned, full = smt2
+        try:
+            rs, dt, why = _run_z3(pruned, min(timeout_s, 5.0))
+            be = "z3"
+            if rs != "unsat" and os.path.exists("/usr/bin/z3"):
+                rs2, dt2, why2 = _run_z3_old(pruned, min(timeout_s, 60.0))
+                dt += dt2
+                if rs2 == "unsat":
+                    rs, be = rs2, "z3-4.8.12"
+            if rs == "unsat":
+                return idx, "unsat", be + "(pruned hypotheses)", dt, ""
+        except Exception:
+            pass
+        return _solve_job((idx, full, timeout_s, use_cvc5))
     try:
-        rs, dt, why = _run_z3(smt2, timeout_s)
+        first = min(timeout_s, 3.0)
+        rs, dt, why = _run_z3(smt2, first)
         backend = "z3"
+        if rs == "unknown" and os.path.exists("/usr/bin/z3"):
+            rs2, dt2, why2 = _run_z3_old(smt2, timeout_s)
+            dt += dt2
+            if rs2 in ("sat", "unsat"):
+                rs, backend, why = rs2, "z3-4.8.12", ""
+            else:
+                why = "z3: %s; z3-4.8.12: %s" % (why, why2)
+        if rs == "unknown" and timeout_s > first:
+            rs3, dt3, why3 = _run_z3(smt2, timeout_s)
+            dt += dt3
+            if rs3 in ("sat", "unsat"):
+                rs, backend, why = rs3, "z3", ""
         if rs == "unknown" and use_cvc5:
-            rs2, dt2, why2 = _run_cvc5(smt2, timeout_s)
+            rs2, dt2, why2 = _run_cvc5(smt2, min(timeout_s, 60))
             dt += dt2
             if rs2 in ("sat", "unsat"):
                 rs, backend, why = rs2, "cvc5", ""
             else:
-                why = "z3: %s; cvc5: %s" % (why, why2)
+                why = "%s; cvc5: %s" % (why, why2)
         return idx, rs, backend, dt, why
     except Exception as e:
         return idx, "error", "z3", 0.0, repr(e)
@@ -122,13 +181,13 @@ def solve_all(obls: List[Obligation], timeout_s: float = DEFAULT_TIMEOUT_S, npro
         if o.verdict:
             continue
         txt = o.smt2
-        h = hashlib.sha1((o.expect + txt).encode()).hexdigest()
+        h = hashlib.sha1((o.expect + txt + o.pruned_smt2).encode()).hexdigest()
         if h in seen:
             dup.setdefault(seen[h], []).append(i)
             continue
         seen[h] = i
         to = o.timeout_s or timeout_s
-        jobs.append((i, txt, to, use_cvc5))
+        jobs.append((i, (o.pruned_smt2, txt) if o.pruned_smt2 else txt, to, use_cvc5))
 
     def finish(i, rs, backend, dt, why):
         o = obls[i]
